@@ -565,3 +565,157 @@ Proof.
     eapply rt_eq; [|apply rt_workhours; unfold wf_workhours, is_u8; lia].
     unfold write_workhours, enc_u8 at 1. rewrite u8_small by lia. reflexivity.
 Qed.
+
+(* with the views in sync and the client's jitter a percentage, the order means apply_order *)
+Lemma effect_synced srv cli o :
+  (match o with OSetDuration _ _ => s_jitter srv = s_jitter cli /\ s_sleep srv = s_sleep cli /\ 0 <= s_jitter cli <= 100 | _ => True end) ->
+  effect srv cli o = apply_order cli o.
+Proof.
+  destruct o as [t j|k|w|d j|k|w]; try reflexivity. intros (Ej & Es & Hr). cbn [effect apply_order]. cbv zeta.
+  rewrite Ej, Es. f_equal.
+  - destruct (j =? -1); [apply clamp_in_domain; exact Hr | apply clamp_in_domain; apply order_jitter_range].
+  - destruct (0 <? t) eqn:E; [rewrite E; reflexivity|]. destruct (0 <? s_sleep cli); reflexivity.
+Qed.
+
+Lemma clamp_u8 cur x : 0 <= cur < 256 -> 0 <= clamp_jitter cur (i8 x) < 256.
+Proof.
+  intros H. unfold clamp_jitter. destruct (i8 x =? -1); [lia|]. destruct (100 <? i8 x); [lia|].
+  destruct (i8 x <? 0) eqn:E; [lia|].
+  assert (i8 x < 128); [|lia]. unfold i8, sgn. cbv zeta. change (2 ^ 8) with 256. change (256 / 2) with 128.
+  destruct (x mod 256 <? 128) eqn:F; lia.
+Qed.
+
+Lemma wf_effect srv cli o :
+  wf_settings srv = true -> wf_settings cli = true -> wf_order o = true -> wf_settings (effect srv cli o) = true.
+Proof.
+  unfold wf_settings. intros Hs Hc Ho. bools.
+  assert (Hnk : forall k, wf_time (norm_kill k) = true) by (intros k; apply wf_kill_of_wire).
+  assert (Hnw : forall w, wf_workhours w = true -> wf_work (norm_work w) = true).
+  { intros w Hw. unfold norm_work. destruct (work_empty w); [reflexivity | exact Hw]. }
+  destruct o as [t j|k|[w|]|d j|k|w]; cbn [effect apply_order wf_order] in *; cbv zeta;
+    unfold set_duration, set_kill, set_work, set_settings; cbn [s_jitter s_sleep s_kill s_work]; bools;
+    repeat (apply andb_true_iff; split); try assumption; try (apply Hnk); try (apply Hnw; assumption); try reflexivity;
+    try (apply is_u8_iff; lia); try (apply is_i64_iff; lia).
+  - apply is_u8_iff. apply clamp_u8. lia.
+  - apply is_i64_iff. destruct (0 <? t); [destruct (0 <? t); lia|]. destruct (0 <? s_sleep srv); lia.
+  - apply is_u8_iff. destruct (j =? -1); [lia|]. pose proof (order_jitter_range j). lia.
+  - apply is_i64_iff. destruct (0 <? d); lia.
+Qed.
+
+(* the whole exchange: setter, client handler, echo, handleInfoResult *)
+Theorem exchange_spec srv cli o pkt cli1 srv2 :
+  wf_settings srv = true -> wf_settings cli = true -> wf_order o = true ->
+  exchange srv cli o = Ok (pkt, cli1, srv2) ->
+  cli1 = effect srv cli o /\
+  exists srv1, server_set srv o = Ok (srv1, pkt) /\ srv2 = absorb infoSync cli1 srv1.
+Proof.
+  intros Hs Hc Ho He. unfold exchange in He.
+  destruct (server_set srv o) as [[srv1 p]| |] eqn:Eset; cbn [bind] in He; try discriminate.
+  rewrite (client_handles_order srv cli o srv1 p Hs Ho Eset) in He. cbn [bind] in He.
+  unfold server_absorb in He.
+  assert (Hw : wf infoSync (effect srv cli o) = true) by (apply (wf_effect srv cli o Hs Hc Ho)).
+  pose proof (devinfo_roundtrip_flat infoSync (effect srv cli o) srv1 Hw []) as Hr. rewrite app_nil_r in Hr.
+  rewrite Hr in He. cbn [bind fst] in He. injection He as <- <- <-.
+  split; [reflexivity|]. exists srv1. split; reflexivity.
+Qed.
+
+(* ... and it always completes, except when SetWorkHours refuses hours that fail Verify *)
+Theorem exchange_completes srv cli o :
+  wf_settings srv = true -> wf_settings cli = true -> wf_order o = true ->
+  (forall w, o = OSetWork (Some w) -> work_empty w = true \/ work_verify w = true) ->
+  exists pkt cli1 srv2, exchange srv cli o = Ok (pkt, cli1, srv2).
+Proof.
+  intros Hs Hc Ho Hv.
+  assert (Hset : exists srv1 p, server_set srv o = Ok (srv1, p)).
+  { destruct o as [t j|k|[w|]|d j|k|w]; cbn [server_set]; eauto.
+    destruct (Hv w eq_refl) as [E|E]; rewrite E; [eauto|]. destruct (work_empty w); cbn [negb]; eauto. }
+  destruct Hset as (srv1 & p & Eset). unfold exchange. rewrite Eset. cbn [bind].
+  rewrite (client_handles_order srv cli o srv1 p Hs Ho Eset). cbn [bind]. unfold server_absorb.
+  assert (Hw : wf infoSync (effect srv cli o) = true) by (apply (wf_effect srv cli o Hs Hc Ho)).
+  pose proof (devinfo_roundtrip_flat infoSync (effect srv cli o) srv1 Hw []) as Hr. rewrite app_nil_r in Hr.
+  rewrite Hr. cbn [bind fst]. eauto.
+Qed.
+
+Theorem settime_takes_effect srv cli o pkt cli1 srv2 :
+  wf_settings srv = true -> wf_settings cli = true -> wf_order o = true ->
+  (match o with OSetDuration _ _ => s_jitter srv = s_jitter cli /\ s_sleep srv = s_sleep cli /\ 0 <= s_jitter cli <= 100 | _ => True end) ->
+  exchange srv cli o = Ok (pkt, cli1, srv2) ->
+  cli1 = apply_order cli o.
+Proof.
+  intros Hs Hc Ho Hsync He. destruct (exchange_spec _ _ _ _ _ _ Hs Hc Ho He) as (-> & _). apply effect_synced. exact Hsync.
+Qed.
+
+(* the server's view after absorbing the echo: the client's settings as the wire carries them *)
+Theorem server_view_after srv cli o pkt cli1 srv2 :
+  wf_settings srv = true -> wf_settings cli = true -> wf_order o = true ->
+  exchange srv cli o = Ok (pkt, cli1, srv2) ->
+  s_jitter srv2 = s_jitter cli1 /\ s_sleep srv2 = s_sleep cli1 /\
+  s_kill srv2 = norm_kill (s_kill cli1) /\ s_work srv2 = norm_work_opt (s_work cli1).
+Proof.
+  intros Hs Hc Ho He. destruct (exchange_spec _ _ _ _ _ _ Hs Hc Ho He) as (_ & srv1 & _ & ->).
+  apply (absorbed_settings infoSync cli1 srv1). discriminate.
+Qed.
+
+Lemma exact_effect srv cli o : exact_settings cli = true -> exact_settings (effect srv cli o) = true.
+Proof.
+  unfold exact_settings. intros H. bools.
+  destruct o as [t j|k|[w|]|d j|k|w]; cbn [effect apply_order]; cbv zeta;
+    unfold set_duration, set_kill, set_work, set_settings; cbn [s_kill s_work];
+    apply andb_true_iff; split; try assumption; try apply exact_kill_of_wire; try apply exact_norm_work; reflexivity.
+Qed.
+
+Lemma settings_eqb_intro a b :
+  s_jitter a = s_jitter b -> s_sleep a = s_sleep b -> s_kill a = s_kill b -> s_work a = s_work b -> settings_eqb a b = true.
+Proof.
+  intros E1 E2 E3 E4. unfold settings_eqb. rewrite E1, E2, E3, E4, !Z.eqb_refl. cbn [andb].
+  destruct (s_work b); [rewrite !Z.eqb_refl|]; reflexivity.
+Qed.
+
+Theorem server_view_equals_client srv cli o pkt cli1 srv2 :
+  wf_settings srv = true -> wf_settings cli = true -> wf_order o = true -> exact_settings cli = true ->
+  exchange srv cli o = Ok (pkt, cli1, srv2) ->
+  settings_eqb srv2 cli1 = true.
+Proof.
+  intros Hs Hc Ho Hx He. destruct (server_view_after _ _ _ _ _ _ Hs Hc Ho He) as (A & B & C & D).
+  destruct (exchange_spec _ _ _ _ _ _ Hs Hc Ho He) as (E & _).
+  assert (Hw : wf_settings cli1 = true) by (rewrite E; apply wf_effect; assumption).
+  assert (Hx1 : exact_settings cli1 = true) by (rewrite E; apply exact_effect; assumption).
+  unfold wf_settings in Hw. unfold exact_settings in Hx1. bools.
+  apply settings_eqb_intro; [exact A | exact B | rewrite C; apply norm_kill_exact; assumption | rewrite D; apply norm_work_exact; assumption].
+Qed.
+
+(* values in the documented domain are applied EXACTLY, on the client and in the server's view,
+   whatever the two views held before (no synchronisation hypothesis) *)
+Definition ordered_exactly (o : order) (c s : session) : Prop :=
+  match o with
+  | OSetDuration t j | OTaskDuration t j =>
+    (0 <= j <= 100 -> s_jitter c = j /\ s_jitter s = j) /\ (0 < t -> s_sleep c = t /\ s_sleep s = t)
+  | OSetKill k | OTaskKill k => exact_kill k = true -> s_kill c = k /\ s_kill s = k
+  | OSetWork w => exact_work w = true -> s_work c = w /\ s_work s = w
+  | OTaskWork w => work_empty w = false -> s_work c = Some w /\ s_work s = Some w
+  end.
+
+Theorem ordered_values_applied_exactly srv cli o pkt cli1 srv2 :
+  wf_settings srv = true -> wf_settings cli = true -> wf_order o = true ->
+  exchange srv cli o = Ok (pkt, cli1, srv2) ->
+  ordered_exactly o cli1 srv2.
+Proof.
+  intros Hs Hc Ho He. destruct (server_view_after _ _ _ _ _ _ Hs Hc Ho He) as (A & B & C & D).
+  destruct (exchange_spec _ _ _ _ _ _ Hs Hc Ho He) as (E & _).
+  rewrite A, B, C, D. clear A B C D He. subst cli1.
+  destruct o as [t j|k|w|d j|k|w]; cbn [ordered_exactly effect apply_order wf_order] in *; cbv zeta;
+    unfold set_duration, set_kill, set_work, set_settings; cbn [s_jitter s_sleep s_kill s_work].
+  - split.
+    + intros Hj. replace (j =? -1) with false by lia. unfold order_jitter.
+      replace (j <? 0) with false by lia. replace (100 <? j) with false by lia. rewrite clamp_in_domain by lia. split; reflexivity.
+    + intros Ht. replace (0 <? t) with true by lia. replace (0 <? t) with true by lia. split; reflexivity.
+  - intros Hk. rewrite !norm_kill_exact; try assumption; [split; reflexivity | apply wf_kill_of_wire | apply exact_kill_of_wire].
+  - intros Hw. destruct w as [w|]; [|split; reflexivity]. cbn [exact_work] in Hw. unfold norm_work.
+    destruct (work_empty w) eqn:Ee; [discriminate|]. cbn [norm_work_opt]. unfold norm_work. rewrite Ee. split; reflexivity.
+  - split.
+    + intros Hj. replace (j =? -1) with false by lia. unfold order_jitter.
+      replace (j <? 0) with false by lia. replace (100 <? j) with false by lia. split; reflexivity.
+    + intros Ht. replace (0 <? d) with true by lia. split; reflexivity.
+  - intros Hk. rewrite !norm_kill_exact; try assumption; [split; reflexivity | apply wf_kill_of_wire | apply exact_kill_of_wire].
+  - intros Hw. unfold norm_work. rewrite Hw. cbn [norm_work_opt]. unfold norm_work. rewrite Hw. split; reflexivity.
+Qed.
